@@ -3,8 +3,12 @@
 Implementation side: sequences (<= 8) of assignment of a new collection, self-assignment, `+=` / `|=` with and
 without re-assignment, append, extend, insert, item assignment, add and update on list- and set-valued managed
 fields of the harness schema L (sub-property + inverse on every field), executed on the REAL descriptor and
-monitored containers from random initial contents. Observation: the contents of the field (list order and
-repetitions significant for list fields, sets sorted) and the set of relation triples in the SymbolGraph."""
+monitored containers from random initial contents. Also: assignment of an iterable computed (lazily) from the
+field's own live contents (generator expression / filter, reversed, iter, itertools.chain, dict.fromkeys), and
+two-owner sequences in which a second instance is CONSTRUCTED with the live container of the first
+(`b = Cls(f=a.f)`) and both fields are written afterwards. Observation: the contents of the field(s) (list order and
+repetitions significant for list fields, sets sorted) and the set of relation triples in the SymbolGraph
+(owner-specific)."""
 from __future__ import annotations
 
 import re
@@ -23,8 +27,14 @@ THEOREMS = [
     "KrroodVerif.PD.C16_cex_iadd",
     "KrroodVerif.PD.C16_cex_list_order",
     "KrroodVerif.PD.C16_cex_ior_bypass",
+    "KrroodVerif.PD.C16_two_general",
+    "KrroodVerif.PD.C16_two_full",
+    "KrroodVerif.PD.C16_two_partial",
+    "KrroodVerif.PD.C16_cex_adopt_shares",
+    "KrroodVerif.PD.C16_cex_ctor_breaks",
 ]
-MODEL_FUNCTION = ("PD.stepC / PD.setterC / PD.inplaceC / PD.addItemC / PD.runC under PD.Quirks, relations by PD.run "
+MODEL_FUNCTION = ("PD.stepC / PD.setterC (Assigned.same | other | lazyOf view) / PD.inplaceC / PD.addItemC / PD.runC "
+                  "under PD.Quirks, PD.stepT / PD.runT (two owners) under PD.TQuirks, relations by PD.run "
                   "(Model/Descriptor.lean); specification PD.specC + PD.closure")
 TRUSTED = [
     "Lean 4.33 kernel; axioms of each theorem listed under coverage.theorems",
@@ -40,13 +50,19 @@ ASSUMPTIONS = [
     "classes hash to their index): that is the 'hash order' of F-C16-3",
     "the `_on_add` hook does not change the contents of the container it is called from (the C16 fields are not "
     "transitive and nothing is inferred back into the written field except elements already stored)",
+    "specification of the two-owner shape: every managed field owns its contents (the new instance receives the "
+    "elements, each recorded for IT; later writes through one field neither appear in the other field nor are "
+    "recorded for the other owner) - the reading under which 'every element that becomes part of the field is "
+    "recorded' can hold for the owner whose field it is",
     "item assignment uses indices in range (an out-of-range index raises IndexError after the hook has run; "
     "not generated)",
 ]
 RULE = ("random sequences of 1..8 write operations on the three list fields and three set fields of schema L (each "
         "with a super-property and an inverse) from 0..4 random initial elements over 4..7 objects, repetitions and "
         "self references included; about half of the sequences stay outside the four triggers; non-trivial = at "
-        "least two operations and a non-empty expected field; distinct by case text")
+        "least two operations and a non-empty expected field; distinct by case text; plus n/3 two-owner sequences "
+        "(0..3 writes on a, b constructed with a's live container, in 60% 1..4 further writes through either field; "
+        "1 in 9 on a field whose super-property field is declared later)")
 
 L_SEXP_CACHE: Dict[str, dict] = {}
 
@@ -63,8 +79,7 @@ def _desc() -> dict:
 
 
 def _asis_step(cur: List[int], op, is_set: bool) -> List[int]:
-    """contents under the code as it is — used only to choose item-assignment indices that are in range for every
-    variant (the as-is contents are never longer than the repaired ones)"""
+    """contents Python semantics dictate (= the repaired code) — used only to choose item-assignment indices in range"""
     k = op[0]
 
     def add(c, x):
@@ -74,7 +89,7 @@ def _asis_step(cur: List[int], op, is_set: bool) -> List[int]:
 
     if k in ("append", "add"):
         return add(cur, op[1])
-    if k in ("extend", "update", "iaddAlias"):
+    if k in ("extend", "update", "iaddAlias", "iadd"):
         for x in op[1]:
             cur = add(cur, x)
         return cur
@@ -87,9 +102,27 @@ def _asis_step(cur: List[int], op, is_set: bool) -> List[int]:
         c[op[1]] = op[2]
         return c
     if k == "assign":
-        return sorted(set(op[1]))
-    if k in ("assignSelf", "iadd"):
-        return []
+        out: List[int] = []
+        for x in op[1]:
+            out = add(out, x)
+        return out
+    if k == "assignSelf":
+        return cur
+    if k == "assignView":
+        v = op[1]
+        if v == "filt":
+            return [x for x in cur if x in op[2]]
+        if v == "rev":
+            return list(reversed(cur))
+        if v == "iter":
+            return list(cur)
+        if v == "chain":
+            out = []
+            for x in list(cur) + list(op[2]):
+                out = add(out, x)
+            return out
+        if v == "keys":
+            return list(dict.fromkeys(cur))
     raise ValueError(k)
 
 
@@ -101,25 +134,31 @@ def _fmt(op) -> str:
         return f"({k} {op[1]} {op[2]})"
     if k == "assignSelf":
         return "(assignSelf)"
+    if k == "assignView":
+        return f"(assignView {op[1]}{''.join(' ' + str(x) for x in (op[2] if len(op) > 2 else []))})"
     return f"({k} {' '.join(map(str, op[1]))})" if op[1] else f"({k})"
 
 
-def _sequence(rng, n_obj: int, is_set: bool, clean: bool, maxlen: int):
-    init = [rng.randrange(n_obj) for _ in range(rng.randint(0, 4))]
+def _sequence(rng, n_obj: int, is_set: bool, clean: bool, maxlen: int, no_setitem: bool = False, init=None,
+              minlen: int = 1):
+    if init is None:
+        init = [rng.randrange(n_obj) for _ in range(rng.randint(0, 4))]
     cur: List[int] = []
     for x in init:
         cur = _asis_step(cur, ("add" if is_set else "append", x), is_set)
     ops = []
-    for _ in range(rng.randint(1, maxlen)):
+    for _ in range(rng.randint(minlen, maxlen)):
         xs = [rng.randrange(n_obj) for _ in range(rng.randint(0, 3))]
         if is_set:
             kinds = ["add", "add", "update", "update", "assign"]
             if not clean:
-                kinds += ["assignSelf", "iadd", "iaddAlias", "iadd"]
+                kinds += ["assignSelf", "iadd", "iaddAlias", "iadd", "assignView", "assignView"]
         else:
             kinds = ["append", "append", "extend", "insert", "insert", "setitem", "setitem", "assign"]
             if not clean:
-                kinds += ["assignSelf", "iadd", "iaddAlias", "assign", "iadd"]
+                kinds += ["assignSelf", "iadd", "iaddAlias", "assign", "iadd", "assignView", "assignView"]
+        if no_setitem:
+            kinds = [x for x in kinds if x != "setitem"]
         k = rng.choice(kinds)
         if k in ("append", "add"):
             op = (k, rng.randrange(n_obj))
@@ -137,6 +176,15 @@ def _sequence(rng, n_obj: int, is_set: bool, clean: bool, maxlen: int):
             elif clean:
                 xs = sorted(set(xs))  # a list already in hash order without repetitions: outside F-C16-3
             op = (k, xs)
+        elif k == "assignView":
+            # the assigned value is an iterable over the live container itself
+            v = rng.choice(["filt", "filt", "iter", "chain", "keys"] + ([] if is_set else ["rev", "rev"]))
+            if v == "filt":
+                op = (k, v, sorted({x for x in range(n_obj) if rng.random() < 0.6}))
+            elif v == "chain":
+                op = (k, v, xs)
+            else:
+                op = (k, v)
         else:
             op = (k,)
         ops.append(op)
@@ -150,6 +198,33 @@ def _line(d: dict, n_obj: int, f: int, a: int, init, ops) -> str:
             f"(ops {' '.join(_fmt(o) for o in ops)}))")
 
 
+def _line2(d: dict, n_obj: int, f: int, a: int, b: int, init, ops) -> str:
+    """ops: list of ("A"|"B", cop) or ("adopt",)"""
+    objs = " ".join("(0 -)" for _ in range(n_obj))
+    body = " ".join("(adopt)" if o[0] == "adopt" else f"({o[0]} {_fmt(o[1])})" for o in ops)
+    return (f"(w2 {d['sexp']} (objs {objs}) (field {f}) (objA {a}) (objB {b}) "
+            f"(init{''.join(' ' + str(x) for x in init)}) (ops {body}))")
+
+
+def _two_owner(rng, d: dict, i: int) -> Case:
+    """`b` is created with (its field first assigned) the live container of `a`; writes before and after on both"""
+    n_obj = rng.randint(4, 7)
+    # fields 0 and 3 have a super-property field declared later on the same class: the constructor raises
+    # (F-C16-6); they are exercised in a small share of the cases only
+    f = rng.choice([0, 3]) if i % 9 == 0 else rng.choice([1, 2, 4, 5])
+    is_set = d["kinds"][f] == "set"
+    a, b = n_obj - 2, n_obj - 1
+    init = [rng.randrange(n_obj - 1) for _ in range(rng.randint(0, 3))]
+    _, pre = _sequence(rng, n_obj - 1, is_set, False, 3, init=list(init), minlen=0)
+    ops = [("A", o) for o in pre] + [("adopt",)]
+    if i % 5 >= 2:  # writes after the adoption (inside the trigger of F-C16-5)
+        _, post = _sequence(rng, n_obj, is_set, False, 4, no_setitem=True, init=[])
+        ops += [(rng.choice("AB"), o) for o in post]
+    tags = ("two-owners", "set-field" if is_set else "list-field",
+            "adopt-last" if ops[-1][0] == "adopt" else "writes-after-adopt")
+    return Case(_line2(d, n_obj, f, a, b, init, ops), tags, "random")
+
+
 def witness_lines() -> Dict[str, str]:
     d = _desc()
     return {
@@ -157,6 +232,8 @@ def witness_lines() -> Dict[str, str]:
         "F-C16-2": _line(d, 5, 0, 4, [1], [("iadd", [2])]),
         "F-C16-3": _line(d, 5, 0, 4, [], [("assign", [3, 1, 3, 0])]),
         "F-C16-4": _line(d, 5, 3, 4, [1], [("iaddAlias", [2])]),
+        "F-C16-5": _line2(d, 6, 1, 4, 5, [1], [("adopt",), ("B", ("append", 2))]),
+        "F-C16-6": _line2(d, 6, 0, 4, 5, [1], [("adopt",)]),
     }
 
 
@@ -176,16 +253,42 @@ def generate(rng, tier, n):
         tags = ("set-field" if is_set else "list-field", "outside-triggers" if clean else "any-op") + tuple(
             sorted({"op-" + o[0] for o in ops}))
         cases.append(Case(_line(d, n_obj, f, a, init, ops), tags, "random"))
+    for i in range(max(40, n // 3)):
+        cases.append(_two_owner(rng, d, i))
     return cases
 
 
 def nontrivial(case: Case, spec: str) -> bool:
+    if case.line.startswith("(w2 "):
+        m2 = re.match(r"A\[([^\]]*)\]\|B\[([^\]]*)\]", spec)
+        return bool(m2 and m2.group(2) not in ("", "-"))
     m = re.match(r"C\[([^\]]*)\]", spec)
     nops = len(re.findall(r"\(", case.line[case.line.rfind("(ops "):])) - 1
     return bool(m and m.group(1)) and nops >= 2
 
 
+def _shrink2(case: Case):
+    from props._pd import parse_sexp
+
+    m = re.search(r"\(ops (.*)\)\)$", case.line)
+    if not m:
+        return
+    head = case.line[: m.start()]
+
+    def ren(x):
+        return x if isinstance(x, str) else "(" + " ".join(ren(y) for y in x) + ")"
+
+    ops = parse_sexp("(" + m.group(1) + ")")
+    for i in range(len(ops)):
+        rest = ops[:i] + ops[i + 1:]
+        if rest and not any(isinstance(o[1], list) and o[1][0] == "setitem" for o in rest[i:] if len(o) > 1):
+            yield Case(f"{head}(ops {' '.join(ren(o) for o in rest)}))", case.tags, "shrink")
+
+
 def shrink(case: Case):
+    if case.line.startswith("(w2 "):
+        yield from _shrink2(case)
+        return
     m = re.search(r"\(init([^)]*)\) \(ops (.*)\)\)$", case.line)
     if not m:
         return
@@ -205,7 +308,7 @@ def shrink(case: Case):
 def revive(case: Case) -> Case:
     """stored lines (corpus, finding witnesses, replays) carry the numeric encoding of the declared semantics as it
     was when they were written; re-read it from the real classes so that only the history is replayed"""
-    m = re.match(r"^\((h|w) \(schema (\w)\) .*? \(objs ", case.line)
+    m = re.match(r"^\((h|w2|w) \(schema (\w)\) .*? \(objs ", case.line)
     if not m:
         return case
     try:
